@@ -10,16 +10,30 @@ PROPS["C04"] = dict(
                "distinct codes per history, so duplicates of one code are the normal case: after every step the list getter must equal the shadow (order, codes, bytes, length fields), remove() must "
                "report and remove exactly the first match, search() must return the first match (identity where the getter returns a reference), size() must equal the size the wire format implies "
                "(own encoder), the option region of the serialization must equal the own encoding, the class's own parser must return the same list, and the re-serialization must be identical; "
-               "one step in eight continues the history on the parsed object.",
+               "one step in eight continues the history on the parsed object. "
+               "Phase 'messages' (harness/c04_messages.cpp) covers what the generated single-argument table cannot: fields that only exist for one message type / flag combination and setters with "
+               "several arguments. Per message kind (ICMPv6 echo, router advertisement + typed options, neighbour solicitation/advertisement, redirect, MLDv1/v2 query, MLDv2 report; ICMP echo, information, "
+               "timestamp, address mask, redirect, fragmentation-needed, parameter problem and every set_*() helper; TCP set_flag/get_flag/flags/has_flags; DHCPv6 relay and client/server headers with "
+               "reconfigure_accept/rapid_commit; BootP vend; PPPoE discovery tags + end_of_list; DNS::soa_record (buffer, resource and whole-message paths); ICMPExtension and ICMPExtensionsStructure; RTP "
+               "padding/extension header; LLC I/S/U formats with XID information; Dot11Beacon/ProbeResponse two-argument element setters, EDCA parameter set, Address 4 of management and data frames) "
+               "the message is put into the state in which the fields exist, fields are set to boundary-heavy in-range values in random order (last value wins), after every set every getter of the "
+               "kind must equal the shadow (snapshot: untouched fields keep their values), and the serialization (standalone or inside IPv6 / IP / Dot11::from_bytes / a DNS message) must (a) equal, region "
+               "by region, an image computed in the monitor from the shadow with RFC / IEEE offset arithmetic, (b) carry a correct checksum where defined (own RFC 1071 sum), (c) re-parse to an object "
+               "whose getters equal the shadow, (d) re-serialize byte-identically.",
     level_note="Trusted: argument generators keep values inside what the argument type can hold; pairs whose argument space is wider than the wire field are listed as in-range preconditions in harness/c04.cpp. "
                "A typed option is set at most once per program (a second add would sit behind the first match); repeated codes are the business of phase 'lists'. "
                "Phase 'lists' only adds what the protocol can represent (restrictions listed at the top of harness/c04_lists.cpp and counted as lists-skip:*): no TCP EOL / IPv4 END elements, NOP/NOOP/PAD/END/"
                "End-Of-List without data and nothing after END/End-Of-List, 40-octet TCP/IPv4 option space, one-octet length limits, ND option data of 8k-2 octets, only chained IPv6 extension header ids "
-               "(data of 8k-2 octets, else compared with the zero padding IPv6 itself appends), <=15 CSRC ids, RFC 4884 objects only behind a >=128-octet datagram.",
+               "(data of 8k-2 octets, else compared with the zero padding IPv6 itself appends), <=15 CSRC ids, RFC 4884 objects only behind a >=128-octet datagram. "
+               "Phase 'messages' only sets the fields of the message's own type (the other accessors overlay the same header word), typed options once per program, payloads below 128 octets for the "
+               "RFC 4884 types, no payload behind ND messages / MLDv1 queries, no SSAP 0x42, Dot11Data payload only with the protected bit (restrictions listed at the top of harness/c04_messages.cpp, "
+               "counted as msgs:restrict:*). Its wire images are written from RFC 792/950/1191/4443/4861/4191/2710/3810/8415/951/2516/1035/4884/3550/9293, IEEE 802.2 and 802.11 field layouts.",
     phases=[dict(name="programs", harness="c04.cpp", flavor="asan", mode="main", cases=dict(quick=400000, thorough=6000000)),
-            dict(name="lists", harness="c04_lists.cpp", flavor="asan", mode="lists", cases=dict(quick=40000, thorough=2000000))],
+            dict(name="lists", harness="c04_lists.cpp", flavor="asan", mode="lists", cases=dict(quick=40000, thorough=2000000)),
+            dict(name="messages", harness="c04_messages.cpp", flavor="asan", mode="messages", cases=dict(quick=30000, thorough=1500000))],
     rule="case = (class, random program of setter calls); distinct = distinct program text; non-trivial: every program step is followed by getter, wire and re-serialization checks; "
-         "lists phase: case = (class, configuration, 1-3 codes, program of 1..14 add/remove/search steps with random data of 0..N octets), distinct = distinct program text",
+         "lists phase: case = (class, configuration, 1-3 codes, program of 1..14 add/remove/search steps with random data of 0..N octets), distinct = distinct program text; "
+         "messages phase: case = (message kind, context, program of 1..10 field sets), distinct = distinct program text",
     floors=dict(any={"distinct": 200000, "wire_checks": 1000000, "getter_checks": 1000000, "steps:option-setter": 200000, "steps:scalar-setter": 300000, "field:*": 20,
                      # phase "lists" (quick tier observes roughly 2-3x these)
                      "lists:programs": 30000, "lists:distinct-histories": 25000, "lists:programs-with-duplicate-codes": 12000, "lists:getter_checks": 150000, "lists:size_checks": 150000,
@@ -36,6 +50,32 @@ PROPS["C04"] = dict(
                      "lists:PPPoE:search-hit": 1000, "lists:IPv6:search-hit": 1000, "lists:Dot11Beacon:search-hit": 600, "lists:Dot11ProbeResponse:search-hit": 600, "lists:Dot11AssocRequest:search-hit": 600,
                      "lists:TCP:search-miss": 1000, "lists:IP:search-miss": 1000, "lists:DHCP:search-miss": 1000, "lists:DHCPv6:search-miss": 1000, "lists:ICMPv6:search-miss": 1000, "lists:PPPoE:search-miss": 700,
                      "lists:IPv6:search-miss": 700, "lists:TCP:dup-code-present": 1200, "lists:IP:dup-code-present": 1200, "lists:DHCP:dup-code-present": 1200, "lists:DHCPv6:dup-code-present": 1200,
-                     "lists:ICMPv6:dup-code-present": 1200, "lists:PPPoE:dup-code-present": 500, "lists:IPv6:dup-code-present": 700, "lists:RTP:dup-code-present": 400}),
+                     "lists:ICMPv6:dup-code-present": 1200, "lists:PPPoE:dup-code-present": 500, "lists:IPv6:dup-code-present": 700, "lists:RTP:dup-code-present": 400,
+                     # phase "messages" (quick tier observes roughly 2-3x these)
+                     "msgs:programs": 25000, "msgs:getter_checks": 60000, "msgs:untouched-field-checks": 500000, "msgs:wire_checks": 40000, "msgs:offset_checks": 250000, "msgs:checksum_checks": 12000,
+                     "msgs:msg:*": 80, "msgs:field:*": 80,
+                     "msgs:msg:ICMPv6.ECHO": 800, "msgs:msg:ICMPv6.ROUTER_ADVERT": 1500, "msgs:msg:ICMPv6.NEIGHBOUR_SOLICIT": 700, "msgs:msg:ICMPv6.NEIGHBOUR_ADVERT": 800, "msgs:msg:ICMPv6.REDIRECT": 1500,
+                     "msgs:msg:ICMPv6.MGM_QUERY.v1": 800, "msgs:msg:ICMPv6.MGM_QUERY.v2": 1600, "msgs:msg:ICMPv6.MLD2_REPORT": 800,
+                     "msgs:msg:ICMP.ECHO": 800, "msgs:msg:ICMP.INFO": 800, "msgs:msg:ICMP.TIMESTAMP": 1600, "msgs:msg:ICMP.ADDRESS_MASK": 800, "msgs:msg:ICMP.REDIRECT": 800, "msgs:msg:ICMP.DEST_UNREACHABLE": 800,
+                     "msgs:msg:ICMP.PARAM_PROBLEM": 800, "msgs:msg:ICMP.helpers": 800,
+                     "msgs:msg:ICMP.helpers.set_echo_request": 80, "msgs:msg:ICMP.helpers.set_echo_reply": 80, "msgs:msg:ICMP.helpers.set_info_request": 80, "msgs:msg:ICMP.helpers.set_info_reply": 80,
+                     "msgs:msg:ICMP.helpers.set_dest_unreachable": 80, "msgs:msg:ICMP.helpers.set_time_exceeded": 80, "msgs:msg:ICMP.helpers.set_param_problem": 80, "msgs:msg:ICMP.helpers.set_source_quench": 80,
+                     "msgs:msg:ICMP.helpers.set_redirect": 80,
+                     "msgs:msg:TCP.flags": 1600, "msgs:field:TCP.set_flag": 2000, "msgs:field:TCP.flags": 700,
+                     "msgs:msg:DHCPv6.RELAY": 1500, "msgs:msg:DHCPv6.CLIENT_SERVER": 700, "msgs:field:DHCPv6.reconfigure_accept": 400, "msgs:field:DHCPv6.hop_count": 350, "msgs:field:DHCPv6.link_address": 350,
+                     "msgs:field:DHCPv6.peer_address": 350, "msgs:msg:BootP.vend": 600, "msgs:field:BootP.vend": 120, "msgs:msg:PPPoE.discovery": 1400, "msgs:field:PPPoE.end_of_list": 160,
+                     "msgs:msg:DNS.soa_record.rdata": 1600, "msgs:in-context:DNS.soa_record": 1000, "msgs:msg:ICMPExtension.object": 800, "msgs:msg:ICMPExtensionsStructure.structure": 700,
+                     "msgs:msg:RTP.plain": 800, "msgs:msg:RTP.extension": 1600, "msgs:field:RTP.padding_size": 400, "msgs:field:RTP.extension_profile": 240, "msgs:field:RTP.extension_data": 250,
+                     "msgs:msg:LLC.INFORMATION": 800, "msgs:msg:LLC.SUPERVISORY": 800, "msgs:msg:LLC.UNNUMBERED": 1600, "msgs:field:LLC.add_xid_information": 300, "msgs:field:LLC.clear_information_fields": 300,
+                     "msgs:field:LLC.group": 600, "msgs:field:LLC.response": 600, "msgs:field:LLC.modifier_function": 300,
+                     "msgs:msg:Dot11Beacon.elements": 1500, "msgs:msg:Dot11ProbeResponse.elements": 1500, "msgs:msg:Dot11Data.addr4.four-address": 500, "msgs:msg:Dot11Data.addr4.three-address": 900,
+                     "msgs:field:Dot11Beacon.power_capability": 150, "msgs:field:Dot11Beacon.fh_parameters": 150, "msgs:field:Dot11Beacon.tpc_report": 150, "msgs:field:Dot11Beacon.edca_parameter_set": 150,
+                     "msgs:field:Dot11Beacon.addr4": 170, "msgs:field:Dot11ProbeResponse.power_capability": 150, "msgs:field:Dot11ProbeResponse.fh_parameters": 150, "msgs:field:Dot11ProbeResponse.tpc_report": 150,
+                     "msgs:field:Dot11ProbeResponse.edca_parameter_set": 150, "msgs:field:Dot11ProbeResponse.addr4": 170, "msgs:field:Dot11Data.addr4": 250,
+                     "msgs:field:ICMPv6.dest_addr": 450, "msgs:field:ICMPv6.target_addr": 1000, "msgs:field:ICMPv6.multicast_addr": 450, "msgs:field:ICMPv6.sources": 450, "msgs:field:ICMPv6.use_mldv2": 450,
+                     "msgs:field:ICMPv6.supress": 450, "msgs:field:ICMPv6.qrv": 450, "msgs:field:ICMPv6.qqic": 450, "msgs:field:ICMPv6.multicast_address_records": 400, "msgs:field:ICMPv6.reachable_time": 180,
+                     "msgs:field:ICMPv6.retransmit_timer": 180, "msgs:field:ICMPv6.router_pref": 180, "msgs:field:ICMP.original_timestamp": 380, "msgs:field:ICMP.receive_timestamp": 380,
+                     "msgs:field:ICMP.transmit_timestamp": 380, "msgs:field:ICMP.address_mask": 280, "msgs:field:ICMP.gateway": 340, "msgs:field:ICMP.mtu": 320, "msgs:field:ICMP.pointer": 340,
+                     "msgs:in-context:ICMPv6": 4000, "msgs:in-context:ICMP": 3000}),
     assumptions=["x86-64 little-endian", "layers are serialized standalone (no parent): pseudo-header checksums are C05's business"],
 )
